@@ -7,6 +7,7 @@ mod common;
 mod stylefmt;
 mod treegen;
 mod c02;
+mod c10tree;
 mod hist;
 mod c09;
 mod evaltree;
